@@ -12,7 +12,7 @@ Ltac liaif :=
          | H : context [if ?a =? ?b then _ else _] |- _ => destruct (Z.eqb_spec a b)
          | |- context [if ?c then _ else _] => destruct c eqn:?
          | H : context [if ?c then _ else _] |- _ => destruct c eqn:?
-         end; lia.
+         end; subst; lia.
 
 Lemma net_app : forall x g h, net x (g ++ h) = net x g + net x h.
 Proof. induction g; intros; cbn [net app]; [lia|]. rewrite IHg. lia. Qed.
